@@ -135,7 +135,7 @@ def baseline(cfg):
     return _BASE[key]
 
 
-def cases(tier, base_seed):
+def _enumerated(tier, base_seed):
     cfgs = configs(tier, base_seed)
     # layer 1: exhaustive single faults
     for ci, cfg in enumerate(cfgs):
@@ -165,27 +165,51 @@ def cases(tier, base_seed):
                     yield {"layer": 2, "cfg": cfg, "plan": {},
                            "repeat": [[op, rel, kind, r]], "sim": REF_SIM,
                            "seed": mix(base_seed, 7_000_000 + ci * 100000 + k * 10 + r)}
-    # layers 3 and 4: sampled
+
+
+def _sampled(tier, base_seed):
+    """Layers 3 and 4: pairs / triples of faults, biased to land at consecutive fault points
+    and to start at an operation that changes the store (write, close, rename, delete)."""
+    cfgs = configs(tier, base_seed)
     i = 0
     while True:
         seed = mix(base_seed, 50_000_000 + i)
         rng = random.Random(seed)
         cfg = cfgs[rng.randrange(len(cfgs))]
         ops, _, k_call = baseline(cfg)
-        nf = rng.choice((2, 2, 3))
+        nf = rng.choice((2, 2, 2, 3))
         k1 = rng.randint(1, k_call)
+        if rng.random() < 0.5:
+            eff = [k for (k, op, _) in ops if k <= k_call and op in simfs.EFFECT_OPS | {"write"}]
+            if eff:
+                k1 = rng.choice(eff)
         plan = {}
         for j in range(nf):
-            k = k1 if j == 0 else (min(k_call, k1 + rng.randint(1, 8)) if rng.random() < 0.6
+            r = rng.random()
+            k = k1 if j == 0 else (min(k_call, k1 + j) if r < 0.45 else
+                                   min(k_call, k1 + rng.randint(1, 8)) if r < 0.75
                                    else rng.randint(1, k_call))
             op = ops[k - 1][1]
-            kinds = [x for x in KINDS if simfs.applicable(x, op)]
-            plan[str(k)] = [rng.choice(kinds), rng.choice((None, 0.05, 5.0, 200.0))]
+            kinds = [x for x in KINDS if simfs.applicable(x, op) and x != "CRASH"] or ["EIO"]
+            plan[str(k)] = [rng.choice(kinds), rng.choice((None, None, 0.05, 5.0, 200.0))]
         layer4 = tier == "thorough" and rng.random() < 0.5
         sim = e1.gen_sim_cfg(rng) if layer4 else REF_SIM
         yield {"layer": 4 if layer4 else 3, "cfg": cfg, "plan": plan, "repeat": [], "sim": sim,
                "seed": seed}
         i += 1
+
+
+def cases(tier, base_seed):
+    """Enumeration layers with one sampled multi-fault case after every eight enumerated ones
+    (so that even a short run sees fault *sequences*); the sampler continues alone afterwards."""
+    sampler = _sampled(tier, base_seed)
+    n = 0
+    for c in _enumerated(tier, base_seed):
+        yield c
+        n += 1
+        if n % 8 == 0:
+            yield next(sampler)
+    yield from sampler
 
 
 def _thin(ops, tier):
